@@ -129,3 +129,38 @@ Definition prefix_mask (n q : nat) (msk : list bool) : Prop :=
   q <= n /\ forall k, k < n -> sel msk k = (k <? q).
 
 End Spec2.
+
+(* ------------------------------------------------------------------ round 2: a NaN-aware carrier over a field *)
+(* option K: [None] stands for every non-finite value (NaN and the infinities are not
+   distinguished); x / 0 = None, None is absorbing for + - * /, comparisons with None are false,
+   and [is_nan None = true] — so on this carrier the model's "computationally singular" exits
+   are live, as they are on binary64.  [isz] is a decision procedure for x = 0. *)
+Section SpecNaN.
+Variable K : fld.
+Variable isz : K -> bool.
+
+Definition olift2 (f : K -> K -> K) (a b : option K) : option K :=
+  match a, b with Some x, Some y => Some (f x y) | _, _ => None end.
+Definition odiv (a b : option K) : option K :=
+  match a, b with Some x, Some y => if isz y then None else Some (fdiv K x y) | _, _ => None end.
+Definition ocmp (f : K -> K -> bool) (a b : option K) : bool :=
+  match a, b with Some x, Some y => f x y | _, _ => false end.
+
+Definition NumO : Num (option K) :=
+  mkNum (option K) (Some (f0 K)) (Some (f1 K)) (olift2 (fadd K)) (olift2 (fsub K)) (olift2 (fmul K)) odiv
+        (option_map (fopp K)) (option_map (fabs K)) (option_map (fsqrt K))
+        (ocmp (fltb K)) (ocmp (fleb K)) (ocmp (feqb K))
+        (fun z => Some (fofZ K z)) (fun a => match a with None => true | Some _ => false end).
+
+(* embedding of finite data *)
+Definition lv (v : list K) : list (option K) := map Some v.
+Definition lm (m : list (list K)) : list (list (option K)) := map lv m.
+Definition lst (s : st (A:=K)) : st (A:=option K) := mkSt (lm (sa s)) (lm (sx s)) (lv (sb s)).
+
+(* both outputs are visibly damaged: some entry of rows < n of x is non-finite, and so is
+   some entry of b *)
+Definition nonfinite (n : nat) (s : st (A:=option K)) : Prop :=
+  (exists r k, r < n /\ mget NumO (sx s) r k = None) /\
+  (exists r, r < n /\ vget NumO (sb s) r = None).
+
+End SpecNaN.
